@@ -93,7 +93,8 @@ MStep ==
                     ELSE IF c \in wr' THEN Nil
                     ELSE oweC[c]]
          \* return into the caller: the call node's live_out applies to the caller's variables now
-         ce == tc.cenv   cf == IF isRet THEN envs[ce].fn ELSE f   calln == tc.node
+         rcl == IF isRet THEN RetCall(ctrl, nc2) ELSE tc
+         ce == rcl.cenv   cf == IF isRet THEN envs[ce].fn ELSE f   calln == rcl.node
          owe2 == IF ~isRet \/ off THEN owe1 ELSE
                  [c \in 1..Len(cells') |->
                     IF c \in OwnedCells(envs, ce) /\ cells'[c] # Unbound
